@@ -1,4 +1,6 @@
 import TsrunVerif.Model.RegAlloc
+import TsrunVerif.Gen.Narrowing
+import TsrunVerif.Lemmas.NarrowingAllow
 
 /-!
 # C10 — meaning does not depend on size
@@ -312,3 +314,13 @@ example : reserveFor RA.init 300 = none ∧ (reserveFor RA.init 255).isSome ∧ 
   decide
 
 end TsrunVerif.RegAlloc
+
+namespace TsrunVerif.Gen
+/-- OBLIGATION over the inventory regenerated from /repo/src/compiler on every run: every narrowing cast
+(`as u8`, `as u16`, `as JumpTarget`, …) of the compiler is one of the reviewed sites, each dominated by a size
+check or a clamp - the theorems above are about the checked paths; a cast outside the list is a place where a
+size can wrap silently. -/
+theorem narrowing_reviewed :
+    (narrowingSites.all (fun s => narrowingSites.count s == reviewedNarrowing.count s) &&
+     reviewedNarrowing.all (fun s => narrowingSites.count s == reviewedNarrowing.count s)) = true := by decide
+end TsrunVerif.Gen
